@@ -63,3 +63,21 @@ def run(ctx):
     ctx.rule('C14-R4 Nilsimsa')
     cmp_many(ctx, 'crysp/nilsimsa.py', [('Nilsimsa.update', M.NIL_UPDATE), ('Nilsimsa.digest', M.NIL_DIGEST), ('Nilsimsa.reset', M.NIL_RESET),
                                         ('Nilsimsa.__call__', M.NIL_CALL), ('Nilsimsa.tran3', M.NIL_TRAN3)], OPT_ARITH)
+
+    ctx.rule('C14-R5 BLAKE2 final block across calls')
+
+    def blake2_final():
+        # RFC 7693: the LAST data block carries the final flag. Blake2.iterblocks decides "last" by look-ahead inside one
+        # update() call, so a final call with an empty piece after block-aligned pieces must be able to tell that data was
+        # already compressed (and then must not compress a padding-only block).  Necessary: the final-call path depends on
+        # the consumed-bit counter (or equivalent state) in a branch condition.
+        import ast
+        f = ctx.func('crysp/blake.py', 'Blake2.iterblocks')
+        u = ctx.func('crysp/blake.py', 'Blake2.update')
+        conds = [ast.unparse(n.test) for fn in (f, u) for n in ast.walk(fn) if isinstance(n, (ast.If, ast.While, ast.IfExp))]
+        ok = any(('bitcnt' in c or 'self.t' in c) for c in conds)
+        ctx.check('Blake2 empty final piece', ok,
+                  'no branch of Blake2.iterblocks/update depends on whether earlier pieces were consumed: update(one block); '
+                  'update(b\'\', padding=True) compresses an extra all-zero final block and differs from the one-shot digest',
+                  ctx.where('crysp/blake.py', 'Blake2.iterblocks'))
+    ctx.guard('Blake2 final', blake2_final)
